@@ -28,6 +28,13 @@ theorem lc_minimal (lb : LB) (hn : 0 < lb.size) :
       (∀ j, j < i → lb.counts.getD i 0 < lb.counts.getD j 0) :=
   Proofs.LB.lc_minimal lb hn
 
+/-- least connections keeps the loops balanced: if no two loops differ by more than one connection
+    and every accepted connection is counted on the loop `lcNext` chose (`eventloop.register`),
+    then after the accept still no two loops differ by more than one -/
+theorem lc_keeps_balanced (lb : LB) (hn : 0 < lb.size) (hb : Proofs.LB.Balanced lb) :
+    ∃ i, lb.lcNext = some i ∧ Proofs.LB.Balanced (Proofs.LB.opened lb i) :=
+  Proofs.LB.lc_keeps_balanced lb hn hb
+
 /-- source-address hash: a registered loop, a pure function of (number of loops, address),
     and the sign branch of `hash` is dead on 64-bit ints -/
 theorem hash_in_range (lb : LB) (hn : 0 < lb.size) (addr : List UInt8) :
@@ -46,6 +53,13 @@ theorem rr_in_range (lb : LB) (hn : 0 < lb.size) : ∃ i lb', lb.rrNext = some (
 -- non-vacuity
 example : Proofs.LB.rrRun ⟨[0, 0, 0], 0⟩ 7 = [0, 1, 2, 0, 1, 2, 0] := by decide
 example : (⟨[3, 1, 2, 1], 0⟩ : LB).lcNext = some 1 := by decide
+example : (Proofs.LB.opened ⟨[2, 1, 2, 1], 0⟩ 1).counts = [2, 2, 2, 1] := by decide
+example : Proofs.LB.Balanced ⟨[2, 1, 2, 1], 0⟩ := by
+  intro j k hj hk
+  simp only [LB.size, List.length_cons, List.length_nil] at hj hk
+  have : j = 0 ∨ j = 1 ∨ j = 2 ∨ j = 3 := by omega
+  have : k = 0 ∨ k = 1 ∨ k = 2 ∨ k = 3 := by omega
+  rcases ‹j = _ ∨ _› with rfl | rfl | rfl | rfl <;> rcases ‹k = _ ∨ _› with rfl | rfl | rfl | rfl <;> decide
 
 /-- last clause of C15 ("the loop a connection is assigned to is the loop on which all of its callbacks run"),
 on the hand-over model: OnOpen runs at most once per descriptor and on the loop the balancer chose. -/
